@@ -131,6 +131,29 @@ WIDENED = {
 for _k, _v in WIDENED.items():
     CHECKS[_k]['text'] = CHECKS[_k]['text'].rstrip() + ' Widened since (DESIGN 12, 14): ' + _v
 
+WIDENED2 = {
+ 'C01': 'the same stream object iterated again after a complete / abandoned / failed first pass (thread, process, async-function parmappers).',
+ 'C02': 'exception classes the library uses for its own control flow raised by workers; exception objects as request inputs and as returned (not raised) values; 20 dedicated id-recycling cases per server kind.',
+ 'C03': 'falsy / None elements; every program consumed a second time and after a peek; elements whose == answers True to everything or has no truth value (numpy-like) through buffer / parmap / batch / AsyncIter / SyncIter / async buffer / async parmap.',
+ 'C04': 'failures raised 3 / 14 / 40 call levels below call(); classes that cannot be rebuilt from their args; equal-content failures from different sites (each checked for its own site marker and object identity).',
+ 'C05': 'Buffer used directly with an external stop event; a context manager that raises on entry of parmap(async_context=...); thread / child census at the instant close() returns.',
+ 'C06': 'stalled-pipe layouts (process-in / thread-out servlets with requests larger than the pipe); callers still waiting for room when the context is left; elapsed-time margins on every rejected / timed-out call.',
+ 'C07': 'consumer TASK cancelled while waiting for a stream result; process lifetimes with 100-300 kB inputs abandoned in front of the pipe; stream element deadlines: stream(timeout=0.2) over elements that need 2 s must yield / raise TimeoutError for exactly those (sync and async).',
+ 'C08': 'Buffer constructed directly with an unset external stop event; the same operator re-iterated with calls in flight.',
+ 'C09': 'an upstream stage that batches too (two batching thread stages on different queues).',
+ 'C11': 'sys.exit(0) / sys.exit() / SystemExit in a worker\'s __init__; a worker that dies of SystemExit raised by call() (single, batched with a full batch buffer, inside ensembles / switches), then exit and re-entry of the same object; a slow switch member behind an ensemble sibling with 200 kB abandoned results.',
+ 'C12': 'kill (SIGKILL / SIGTERM / SIGSEGV) while the child logs without pause, records of 50 B and 9 kB against a slow parent handler; exit codes beyond one byte (256, 257, -1); a returned value the parent cannot rebuild; falsy exit codes; timed accessors used first; falsy exception objects.',
+ 'C13': 'sender drops its proxy while the argument is in transit to a new child; an agent forks (stdlib fork start method) a child that inherits all its proxies by memory; a pickling that fails after __reduce__ ran (known finding).',
+ 'C14': 'proxy lifetimes interleaved with calls (last proxy of the manager released and a new one received in the same thread; pickled / copy.copy twin released); in-place operators (p *= 2, p += [..]) must leave the name bound to the proxy; hosted method raising SystemExit; method_to_typeid class; str() and iteration.',
+ 'C15': 'classes that keep their cause across pickling; alternating deep stacks (no collapsed recursive frames) x re-raise hops.',
+ 'C16': 'preprocessor and worker exception classes incl. StopIteration / TimeoutError / queue.Empty / asyncio.QueueFull in all four parmapper variants; the same Server / AsyncServer object entered twice (a new event loop per session) with callers waiting for room in both sessions.',
+ 'C17': 'overlap rounds (consumers start the next round while renew runs); other queue kinds; 2-3 rounds with renew across 2-4 supplier and 2-4 consumer processes; early-put cases (known finding).',
+ 'C18': '/echo of str / bytes subclasses and surrogate-escaped strings; TCP transport; failing stream elements; tiny backlogs; a request whose payload or response cannot be pickled among ordinary requests on 1-3 connections; streams whose input pauses ~0.1 s before its last elements with the consumer delayed after its empty poll.',
+ 'C20': 'the parent-program carrier with daemon and non-daemon children.',
+}
+for _k, _v in WIDENED2.items():
+    CHECKS[_k]['text'] = CHECKS[_k]['text'].rstrip() + ' Rounds 4-5 (DESIGN 14): ' + _v
+
 NOT_YET = {}
 
 ALL = [f'C{i:02d}' for i in range(1, 21)]
